@@ -2,6 +2,7 @@
   C08 — Widrow–Hoff learners follow the delta rule in all vector flavours.
 -/
 import PyndlProofs.WH
+import PyndlProofs.WHSpec
 
 namespace Pyndl.C08
 open Pyndl List
@@ -70,6 +71,48 @@ theorem wh_driver_eq_spec {n nOut : Nat} {ok : Event Nat Nat → Prop}
     rowFn n (learnOmpWith step files (List.range nOut) chunk w) o
       = files.flatten.foldl (f o) (rowFn n w o) :=
   learnOmpWith_row h files chunk hc hev w hw o ho
+
+/-- **`wh.wh`, real cues → binary outcomes, end to end on names**: the whole model
+    (`_wh_real_to_binary`: table check, cue ids = rows of the cue table, outcome
+    ids = counting order, duplicate policy on ids, OpenMP entry point with any
+    `n_outcomes_per_job ≥ 1`, labels) returns at every (outcome name, cue
+    dimension label) the delta rule run over the policy-processed events with
+    `x = Σ cue vectors (by name)`, target `λ·[o ∈ outcomes]`, rates β₁/β₂ -/
+theorem wh_r2b_end_to_end (p : DupPolicy) (eta β₁ β₂ lam : R) (ct : VecTable R)
+    (chunk : Nat) (hc : 1 ≤ chunk) (es es' : List (Event String String))
+    (htab : ∀ e ∈ es, ∀ c ∈ e.cues, c ∈ ct.names) (hp : applyPolicyAll p es = some es') :
+    ∃ w, whModel .r2b p eta β₁ β₂ lam (some ct) none chunk none es = .ok w ∧
+      ∀ o d, w.get o d = if d ∈ ct.dims then whR2BSpec β₁ β₂ lam ct es' o (ct.dims.idxOf d) else 0 :=
+  whModel_r2b_get p eta β₁ β₂ lam ct chunk hc es es' htab hp
+
+/-- **`wh.wh`, real → real, end to end on names** (`_wh_real_to_real`, openmp) -/
+theorem wh_r2r_end_to_end (p : DupPolicy) (eta β₁ β₂ lam : R) (ct ot : VecTable R)
+    (chunk : Nat) (hc : 1 ≤ chunk) (es es' : List (Event String String))
+    (htabc : ∀ e ∈ es, ∀ c ∈ e.cues, c ∈ ct.names) (htabo : ∀ e ∈ es, ∀ o ∈ e.outcomes, o ∈ ot.names)
+    (hp : applyPolicyAll p es = some es') :
+    ∃ w, whModel .r2r p eta β₁ β₂ lam (some ct) (some ot) chunk none es = .ok w ∧
+      w.outcomes = ot.dims ∧ w.cues = ct.dims ∧ w.vals.size = ct.dims.length * ot.dims.length ∧
+      ∀ d, d < ot.dims.length → ∀ k, k < ct.dims.length →
+        w.vals.getD (d * ct.dims.length + k) 0 = whR2RSpec eta ct ot es' d k :=
+  whModel_r2r_eq_spec_names p eta β₁ β₂ lam ct ot chunk hc es es' htabc htabo hp
+
+/-- **`wh.wh`, binary cues → real outcomes, end to end on names** (`_wh_binary_to_real`) -/
+theorem wh_b2r_end_to_end (p : DupPolicy) (eta β₁ β₂ lam : R) (ot : VecTable R)
+    (chunk : Nat) (hc : 1 ≤ chunk) (es es' : List (Event String String))
+    (htabo : ∀ e ∈ es, ∀ o ∈ e.outcomes, o ∈ ot.names) (hp : applyPolicyAll p es = some es') :
+    ∃ w, whModel .b2r p eta β₁ β₂ lam none (some ot) chunk none es = .ok w ∧
+      w.outcomes = ot.dims ∧ w.cues = (countNames es).1 ∧
+      w.vals.size = (countNames es).1.length * ot.dims.length ∧
+      ∀ d, d < ot.dims.length → ∀ c ∈ (countNames es).1,
+        w.vals.getD (d * (countNames es).1.length + (countNames es).1.idxOf c) 0 = whB2RSpec eta ot es' d c :=
+  whModel_b2r_eq_spec_names p eta β₁ β₂ lam ot chunk hc es es' htabo hp
+
+/-- a cue without a vector ⇒ `ValueError` (the table check), whatever else -/
+theorem wh_missing_vector_raises (p : DupPolicy) (eta β₁ β₂ lam : R) (ct : VecTable R) (chunk : Nat)
+    (W0 : Option (LW R)) (es : List (Event String String))
+    (hbad : ∃ e ∈ es, ∃ c ∈ e.cues, c ∉ ct.names) :
+    whModel .r2b p eta β₁ β₂ lam (some ct) none chunk W0 es = .error .value :=
+  whModel_r2b_tableError p eta β₁ β₂ lam ct chunk W0 es hbad
 
 /-- single-cue / single-outcome events (the domain of method='numpy' and
     `dict_wh`): the input vector is the cue's vector, the target the outcome's -/
